@@ -345,15 +345,20 @@ class WeakPtr
   {
     if (c_) ++c_->weak;
   }
-  WeakPtr(const WeakPtr &o) noexcept : c_{o.c_}
+  WeakPtr(const WeakPtr &o) noexcept
   {
+    vs::plain_access(&o.c_, false);
+    c_ = o.c_;
     if (c_) ++c_->weak;
   }
   WeakPtr(WeakPtr &&o) noexcept : c_{o.c_} { o.c_ = nullptr; }
+  // NOTE: a weak_ptr object is plain data; reading/replacing its pointer is a visible step so that
+  // unsynchronised use of one weak_ptr object by two threads is explored
   auto
   operator=(const WeakPtr &o) noexcept -> WeakPtr &
   {
     WeakPtr tmp{o};
+    vs::plain_access(&c_, true);
     std::swap(c_, tmp.c_);
     return *this;
   }
@@ -361,6 +366,7 @@ class WeakPtr
   operator=(WeakPtr &&o) noexcept -> WeakPtr &
   {
     WeakPtr tmp{std::move(o)};
+    vs::plain_access(&c_, true);
     std::swap(c_, tmp.c_);
     return *this;
   }
@@ -368,6 +374,7 @@ class WeakPtr
   operator=(const SharedPtr<T> &s) noexcept -> WeakPtr &
   {
     WeakPtr tmp{s};
+    vs::plain_access(&c_, true);
     std::swap(c_, tmp.c_);
     return *this;
   }
@@ -379,27 +386,34 @@ class WeakPtr
   reset() noexcept
   {
     WeakPtr tmp{};
+    vs::plain_access(&c_, true);
     std::swap(c_, tmp.c_);
   }
   [[nodiscard]] bool
   expired() const noexcept
   {
-    return !c_ || c_->strong.load(std::memory_order_relaxed) == 0;
+    vs::plain_access(&c_, false);
+    auto *c = c_;
+    return !c || c->strong.load(std::memory_order_relaxed) == 0;
   }
   [[nodiscard]] long
   use_count() const noexcept
   {
-    return c_ ? c_->strong.load(std::memory_order_relaxed) : 0;
+    vs::plain_access(&c_, false);
+    auto *c = c_;
+    return c ? c->strong.load(std::memory_order_relaxed) : 0;
   }
   [[nodiscard]] SharedPtr<T>
   lock() const noexcept
   {
-    if (!c_) return {};
-    long cur = c_->strong.load(std::memory_order_relaxed);
+    vs::plain_access(&c_, false);
+    auto *c = c_;
+    if (!c) return {};
+    long cur = c->strong.load(std::memory_order_relaxed);
     while (cur != 0) {
-      if (c_->strong.compare_exchange_strong(cur, cur + 1, std::memory_order_acq_rel,
-                                             std::memory_order_relaxed)) {
-        return SharedPtr<T>{c_, 0};
+      if (c->strong.compare_exchange_strong(cur, cur + 1, std::memory_order_acq_rel,
+                                            std::memory_order_relaxed)) {
+        return SharedPtr<T>{c, 0};
       }
     }
     return {};
